@@ -16,13 +16,6 @@ Proof.
   eapply Z.divide_trans; [apply pow2_divide; exact H|exact Hx].
 Qed.
 
-Lemma top_eff_congr (w r v : Z) : 1 <= w -> (top_eff w r v - v) mod 2 ^ w = 0.
-Proof.
-  intros Hw. unfold top_eff. destruct (2 ^ (w - 1) <=? v - wrap r v).
-  - replace (v - 2 ^ w - v) with (-1 * 2 ^ w) by ring. apply Z_mod_mult.
-  - rewrite Z.sub_diag. apply Z.mod_0_l. pose proof (pow2_pos w ltac:(lia)). lia.
-Qed.
-
 Lemma wrap_congr0 (w x : Z) : 1 <= w -> (wrap w x - x) mod 2 ^ w = 0.
 Proof.
   intros Hw. destruct (wrap_exists w x Hw) as [q Hq]. rewrite Hq.
@@ -136,7 +129,7 @@ Theorem rt_i64 (k : Z) (a_size : nat) (v : Z) : 1 <= k <= Z.of_nat a_size * b ->
   (enc_lo b k <= v <= enc_hi b k -> r = v).
 Proof.
   intros Hk Hv. rewrite (enc_i64_spec b Hb k a_size v Hk Hv).
-  apply (rt_generic 64 k a_size _ v); auto; try lia. apply top_eff_congr. lia.
+  apply (rt_generic 64 k a_size v v); auto; try lia; rewrite Z.sub_diag; reflexivity.
 Qed.
 
 Theorem rt_i128 (k : Z) (a_size : nat) (v : Z) : 1 <= k <= Z.of_nat a_size * b -> in_range 128 v ->
@@ -146,7 +139,7 @@ Theorem rt_i128 (k : Z) (a_size : nat) (v : Z) : 1 <= k <= Z.of_nat a_size * b -
   (enc_lo b k <= v <= enc_hi b k -> r = v).
 Proof.
   intros Hk Hv. rewrite (enc_i128_spec b Hb k a_size v Hk Hv).
-  apply (rt_generic 128 k a_size _ v); auto; try lia. apply top_eff_congr. lia.
+  apply (rt_generic 128 k a_size v v); auto; try lia; rewrite Z.sub_diag; reflexivity.
 Qed.
 
 Lemma dec_coeff_enc (k : Z) (a_size : nat) (v : Z) : 1 <= k <= Z.of_nat a_size * b -> in_range 64 v ->
@@ -167,16 +160,11 @@ Theorem rt_coeff (k : Z) (a_size : nat) (v : Z) : 1 <= k <= Z.of_nat a_size * b 
   (enc_lo b k <= v <= enc_hi b k -> r = v).
 Proof. intros Hk Hv. cbv zeta. rewrite dec_coeff_enc by auto. apply rt_i64; auto. Qed.
 
-(* an i64 encoding read back at 128 bits: exact as long as the first carry did not wrap *)
+(* an i64 encoding read back at 128 bits *)
 Theorem rt_i64_dec128 (k : Z) (a_size : nat) (v : Z) : 1 <= k <= Z.of_nat a_size * b -> in_range 64 v ->
-  v - wrap (b - enc_krem b k) v < 2 ^ 63 -> enc_lo b k <= v <= enc_hi b k ->
-  dec_vec 128 b k (enc_i64 b k a_size v) = v.
+  enc_lo b k <= v <= enc_hi b k -> dec_vec 128 b k (enc_i64 b k a_size v) = v.
 Proof.
-  intros Hk Hv Hno Hfit. rewrite (enc_i64_spec b Hb k a_size v Hk Hv).
-  assert (E : top_eff 64 (b - enc_krem b k) v = v).
-  { unfold top_eff. change (2 ^ (64 - 1)) with (2 ^ 63).
-    destruct (Z.leb_spec (2 ^ 63) (v - wrap (b - enc_krem b k) v)); [lia|reflexivity]. }
-  rewrite E.
+  intros Hk Hv Hfit. rewrite (enc_i64_spec b Hb k a_size v Hk Hv).
   destruct (rt_generic 128 k a_size v v ltac:(lia) Hk) as (_ & _ & _ & H).
   - apply (in_range_weaken 64 128); [lia|exact Hv].
   - rewrite Z.sub_diag. reflexivity.
@@ -217,25 +205,19 @@ Proof.
     rewrite E. ring.
 Qed.
 
-(* the torus value of the written limbs is v / 2^k modulo 1, unless the first carry wrapped at a precision above the
-   word width *)
-Lemma enc_spec_value_congr (k : Z) (a_size : nat) (V v : Z) (w : Z) : 1 <= k <= Z.of_nat a_size * b -> 1 <= w ->
-  (V - v) mod 2 ^ w = 0 -> (k <= w \/ V = v) ->
-  (e_lval b (firstn (enc_size b k) (enc_spec b k a_size V)) - v * 2 ^ enc_krem b k)
+(* the torus value of the written limbs is v / 2^k modulo 1 *)
+Lemma enc_spec_value_congr (k : Z) (a_size : nat) (v : Z) : 1 <= k <= Z.of_nat a_size * b ->
+  (e_lval b (firstn (enc_size b k) (enc_spec b k a_size v)) - v * 2 ^ enc_krem b k)
     mod 2 ^ (Z.of_nat (enc_size b k) * b) = 0.
 Proof.
-  intros Hk Hw HV Hor. destruct (enc_params b k ltac:(lia) ltac:(lia)) as (Esz & Hr & Hs1).
-  destruct (enc_spec_shape k a_size V Hk) as (_ & _ & _ & _ & Ev). cbv zeta in Ev. rewrite Ev.
+  intros Hk. destruct (enc_params b k ltac:(lia) ltac:(lia)) as (Esz & Hr & Hs1).
+  destruct (enc_spec_shape k a_size v Hk) as (_ & _ & _ & _ & Ev). cbv zeta in Ev. rewrite Ev.
   rewrite Esz. rewrite Z.pow_add_r by lia.
-  pose proof (enc_rep_congr b k V ltac:(lia) ltac:(lia)) as Hc.
+  pose proof (enc_rep_congr b k v ltac:(lia) ltac:(lia)) as Hc.
   pose proof (pow2_pos k ltac:(lia)) as Hpk. pose proof (pow2_pos (enc_krem b k) ltac:(lia)) as Hpr.
-  assert (Hvk : (V - v) mod 2 ^ k = 0).
-  { destruct Hor as [Hle|He]; [apply (mod0_weaken _ _ w); [lia|exact HV]|].
-    rewrite He, Z.sub_diag. apply Z.mod_0_l. lia. }
-  replace (enc_rep b k V * 2 ^ enc_krem b k - v * 2 ^ enc_krem b k)
-    with (((enc_rep b k V - V) + (V - v)) * 2 ^ enc_krem b k) by ring.
-  rewrite Zmult_mod_distr_r.
-  rewrite (mod0_add _ _ _ Hpk Hc Hvk). reflexivity.
+  replace (enc_rep b k v * 2 ^ enc_krem b k - v * 2 ^ enc_krem b k)
+    with ((enc_rep b k v - v) * 2 ^ enc_krem b k) by ring.
+  rewrite Zmult_mod_distr_r, Hc. reflexivity.
 Qed.
 
 End RT.
